@@ -139,11 +139,15 @@ func (o *oracle) afterUpdate(u, g step, ri *rawInfo) {
 	default:
 		o.tags["outcome:refused-unparsable-or-unsigned"] = true
 	}
+	if u.obs.class == "EOk" && (!ri.ok || after == nil || after.Size != ri.p.Size || !bytes.Equal(after.Root, ri.p.Root)) {
+		o.fail("success answer, but the candidate is not what the witness holds afterwards: %s", u.op.desc)
+	}
 	if u.obs.class != "EOk" && changed {
 		o.fail("refused update (%s) changed the held STH of log %s: %s", u.obs.class, l.name, u.op.desc)
 	}
 	if u.obs.class == "EFailedPre" {
-		if before == nil || !bytes.Equal(u.obs.body, before.raw) {
+		heldCosigned := before != nil && u.obs.cosigned && u.obs.verified && u.obs.p.sameSigned(before.p)
+		if before == nil || !(bytes.Equal(u.obs.body, before.raw) || heldCosigned) {
 			o.fail("FailedPrecondition not answered with the held STH: %s", u.op.desc)
 		}
 	}
@@ -443,10 +447,14 @@ func (h *harness) nextUpdate(w *world, l *logT, hd *heldT, ts *uint64) *opT {
 	case "wrong-id":
 		setTree(cur, pickLarger(cur))
 		spec.form = "std"
-		if h.r.Intn(2) == 0 {
+		switch h.r.Intn(3) {
+		case 0:
 			spec.idMode, spec.idOwner = "other", w.logs[1-indexOf(w.logs[:2], l)&1]
-		} else {
+		case 1:
 			spec.idMode = "random"
+		default: // the right id with one bit flipped somewhere
+			spec.idMode = "near"
+			sc += ":near"
 		}
 	case "unknown-log":
 		op.log = w.logs[3]
@@ -580,7 +588,7 @@ func (h *harness) emitHist(hc *histCase) {
 		inJ = append(inJ, s.op.json())
 		obJ = append(obJ, s.obs.json())
 	}
-	env := fmt.Sprintf("{| e_logs := %s; e_raws := %s; e_hashes := %s; e_strict := code_is_strict |}", lib.List(logs), lib.List(raws), hc.tab.coq())
+	env := fmt.Sprintf("{| e_logs := %s; e_raws := %s; e_hashes := %s; e_strict := code_is_strict; e_cosign_held := code_cosigns_held |}", lib.List(logs), lib.List(raws), hc.tab.coq())
 	term := cb.wrap(fmt.Sprintf("CHist %s %s", env, lib.List(ops)))
 	var tags []string
 	for t := range hc.tags {
